@@ -71,12 +71,15 @@ CHECKS = {
         "text": ("TengoSem.tla/TengoValues.tla are an executable TLA+ reference semantics of the documented language (names, lexical "
                  "environments, cells, heap with slice aliasing, operator/builtin tables). TLC evaluates every generated program, exploring "
                  "every map iteration order and marking capacity/range dependent programs 'excluded'; the real Script.Compile/RunContext/"
-                 "GetAll outcome (globals structurally, or error class) must be one of the outcomes TLC found."),
-        "design_ref": "DESIGN.md 5.1, 5.2, 8/C01",
+                 "GetAll outcome (globals structurally, or error class) must be one of the outcomes TLC found. Below that, TengoVM.tla specifies "
+                 "the machine at bytecode level (one action per opcode over stack, frames, boxes, cells, iterators, with the same value layer): the "
+                 "instrumented VM records one event per dispatched instruction and TLC validates each recording as a behaviour of that machine on "
+                 "the real compiler's bytecode, ending in the real final globals."),
+        "design_ref": "DESIGN.md 5.1, 5.2, 8/C01, 15.7",
         "note": ("Trusted: TLC; the harness AST printer and value codec; the transcription of docs/*.md into TengoValues. Model range: "
                  "|int| < 2^30, dyadic floats, 1-4 byte UTF-8; int64 wrap-around and float rounding are not modelled (programs leaving the "
                  "range are counted as excluded)."),
-        "technique": "TLA+ reference interpreter evaluated by TLC (all nondeterministic branches) vs real compile+run, per program",
+        "technique": "TLA+ reference interpreter evaluated by TLC (all nondeterministic branches) vs real compile+run, per program; plus trace validation of the real VM's instruction stream against a TLA+ bytecode machine",
     },
     "C02": {
         "text": ("BytecodeWF.tla is an abstract interpreter (TLA+ actions over a worklist) on the raw instruction bytes of every function "
